@@ -15,9 +15,26 @@ def nontrivial(line):
     return None
 
 
+def _scope(f):
+    # the quantifier of the property, decided from the input alone (the driver decides the same with the extracted
+    # wrows_of and answers `OK skipped:outside-the-quantifier`): finite symbol cells, wildcard cell finite or -inf, M >= 2
+    try:
+        rows = [[int(c) for c in r.split(",")] for r in f.get("mat", "").split("/") if r]
+        if len(rows) < 2:
+            return "scope:outside-quantifier(skipped)"
+        for r in rows:
+            for j, b in enumerate(r):
+                nonfinite = ((b >> 23) & 0xFF) == 0xFF
+                if nonfinite and not (j == len(r) - 1 and b == 0xFF800000):
+                    return "scope:outside-quantifier(skipped)"
+        return "scope:inside-quantifier"
+    except ValueError:
+        return "scope:?"
+
+
 def histogram(line):
     f = _fields(line)
-    return ["M=" + f.get("M", "?"), "abc:" + f.get("abc", "dna"), "ref:" + f.get("ref", "enum"), "matrix:" + f.get("mk", "?"), "background:" + f.get("bgk", "?"),
+    return [_scope(f), "M=" + f.get("M", "?"), "abc:" + f.get("abc", "dna"), "ref:" + f.get("ref", "enum"), "matrix:" + f.get("mk", "?"), "background:" + f.get("bgk", "?"),
             "query:" + f.get("qk", "?"), "steps=" + f.get("steps", "?")]
 
 
@@ -35,7 +52,7 @@ SPEC = dict(
     props_file="C13.v",
     module="LMTfm.C13",
     translate=tfm_const.translate,
-    more_props=[("C13Ext.v", "LMTfm.C13Ext"), ("C12Gen.v", "LMTfm.C12Gen")],
+    more_props=[("C13Ext.v", "LMTfm.C13Ext"), ("C12Gen.v", "LMTfm.C12Gen"), ("C13Ext2.v", "LMTfm.C13Ext2")],
     extra_obligations={"thorough": _e2e_stat_obligations},
     extra_obligations_name="coq/e2e/E2EStat.v: composition of C09, C11, C12/C13, C10, C14 and the scanning pipeline of E2E.v",
     extra_obligations_cmd="make -C coq/e2e (and imported groups) + Print Assumptions audit of LME2E.E2EStat",
